@@ -328,8 +328,11 @@ impl<T: Qcow2IoOps> Qcow2Dev<T> {
                     );
                     match l2_e.compressed_range(info.cluster_bits() as u32) {
                         Some((off, length)) => {
+                            // the compressed data occupies the bytes
+                            // [off, off + length): its last byte decides the
+                            // last host cluster referenced
                             let start = info.cluster_round_down(off);
-                            let end = info.cluster_round_down(off + (length as u64));
+                            let end = info.cluster_round_down(off + (length as u64) - 1);
 
                             let cnt = (((end - start) as usize) >> info.cluster_bits()) + 1;
                             self.free_clusters(start, cnt).await?
